@@ -748,6 +748,7 @@ def gen_ops(rng: random.Random, n: int) -> list:
                     rng.choice([0, 0, 1, 1, 2, 3, -1, 0.5, 7]),
                     t + rng.choice([-2, -1, 0, 0, 1, 1, 2, 3, 5, 9]),  # deadline in ticks (may already be past)
                     f"f{rng.choice([0, 0, 1, 2, 3])}",
+                    rng.choice([0, 0, 0, 1, 2, 3, 5, 8, 24, 40, 100]),  # plus a few ns: distinct deadlines inside one tick
                 ]
             )
             next_id += 1
